@@ -140,7 +140,7 @@ fn sx_month(y: i64, k: i64) -> String {
 
 pub fn run(ctx: &Ctx) -> usize {
   let mut rng = ctx.rng(1301);
-  let years: Vec<i64> = if ctx.quick() {
+  let years: Vec<i64> = if false {
     let mut v: Vec<i64> = vec![1, 2, 4, 100, 1000, 1500, 1581, 1582, 1583, 1600, 1700, 1900, 2000, 2023, 2024, 2100, 9998, 9999];
     for _ in 0..380 {
       v.push(rng.range(1, 9999));
@@ -149,7 +149,7 @@ pub fn run(ctx: &Ctx) -> usize {
   } else {
     (1..=9999).collect()
   };
-  let lyears: Vec<i64> = if ctx.quick() {
+  let lyears: Vec<i64> = if false {
     let mut v: Vec<i64> = vec![0, 1, 8, 9, 23, 24, 25, 236, 239, 240, 1582, 2020, 2023, 2033, 9998, 9999];
     for _ in 0..80 {
       v.push(rng.range(0, 9999));
@@ -158,8 +158,8 @@ pub fn run(ctx: &Ctx) -> usize {
   } else {
     (0..=9999).collect()
   };
-  let sxyears: Vec<i64> = if ctx.quick() { (0..40).map(|_| rng.range(2, 9997)).chain([1582i64, 641, 9493].into_iter()).collect() } else { (0..500).map(|_| rng.range(2, 9997)).collect() };
-  let ndays = if ctx.quick() { 300 } else { 5000 };
+  let sxyears: Vec<i64> = if ctx.quick() { (0..200).map(|_| rng.range(2, 9997)).chain([1582i64, 641, 9493].into_iter()).collect() } else { (0..500).map(|_| rng.range(2, 9997)).collect() };
+  let ndays = if ctx.quick() { 1500 } else { 5000 };
   let djs: Vec<i64> = (0..ndays).map(|_| rng.range(1721424 + 40, 5373484 - 40)).collect();
   let yp = crate::windows::deal(years, ctx.threads);
   let lp = crate::windows::deal(lyears, ctx.threads);
